@@ -20,7 +20,7 @@ use crate::{
     },
     socket::{Socket, UdpSocket},
     utils::{maybe_gather, retry_on_timeout, u8_lower_upper},
-    GDErrorKind::{BadGame, Decompress, UnknownEnumCast},
+    GDErrorKind::{BadGame, Decompress, PacketBad, UnknownEnumCast},
     GDResult,
 };
 
@@ -146,19 +146,27 @@ impl ValveProtocol {
         buffer.move_cursor(-1)?;
         if header == 0xFE {
             // the packet is split
-            let mut main_packet = SplitPacket::new(engine, protocol, &mut buffer)?;
-            let mut chunk_packets = Vec::with_capacity(main_packet.total.saturating_sub(1) as usize);
+            let main_packet = SplitPacket::new(engine, protocol, &mut buffer)?;
+            let total = main_packet.total;
+            let mut packets = Vec::with_capacity(total as usize);
+            packets.push(main_packet);
 
-            for _ in 1 .. main_packet.total {
+            for _ in 1 .. total {
                 let new_data = self.socket.receive(Some(buffer_size))?;
                 buffer = Buffer::<LittleEndian>::new(&new_data);
                 let chunk_packet = SplitPacket::new(engine, protocol, &mut buffer)?;
-                chunk_packets.push(chunk_packet);
+                packets.push(chunk_packet);
             }
 
-            chunk_packets.sort_by(|a, b| a.number.cmp(&b.number));
+            // The first packet received is not necessarily the first one of the payload
+            packets.sort_by(|a, b| a.number.cmp(&b.number));
 
-            for chunk_packet in chunk_packets {
+            let mut packets = packets.into_iter();
+            let mut main_packet = packets
+                .next()
+                .ok_or_else(|| PacketBad.context("Split packet without any fragment"))?;
+
+            for chunk_packet in packets {
                 main_packet.payload.extend(chunk_packet.payload);
             }
 
